@@ -40,12 +40,18 @@ def build(ctx, p):
         # both labware are constructed from one caller-owned float array (each must keep its own copy)
         _, R_, C_ = common.GEO[p["sgeo"]]
         shared = ctx.np.array([[ctx.real(f"iv{r}_{c}", 0, common.BIG) for c in range(C_)] for r in range(R_)], dtype=float)
-    W.src, gs, pre_s = common.make_labware(ctx, "S", p["sgeo"], filled=filled, init_array=shared)
+    own = {}
+    if p.get("ctor_init"):
+        # every labware is built by the public constructor from its own float array of symbolic volumes (state and history as constructed)
+        for nm, geo in (("S", p["sgeo"]), ("D", p["dgeo"])):
+            _, R_, C_ = common.GEO[geo]
+            own[nm] = ctx.np.array([[ctx.real(f"{nm}_iv{r}_{c}", 0, common.BIG) for c in range(C_)] for r in range(R_)], dtype=float)
+    W.src, gs, pre_s = common.make_labware(ctx, "S", p["sgeo"], filled=filled, init_array=own.get("S", shared))
     if p.get("same"):
         W.dst, gd, pre_d = W.src, gs, {}
         W.geos = [gs]
     else:
-        W.dst, gd, pre_d = common.make_labware(ctx, "D", p["dgeo"], filled=filled, init_array=shared)
+        W.dst, gd, pre_d = common.make_labware(ctx, "D", p["dgeo"], filled=filled, init_array=own.get("D", shared))
         W.geos = [gs, gd]
     W.geo = {g.name: g for g in W.geos}
     W.labs = {"S": W.src, W.dst.name: W.dst}
